@@ -76,7 +76,51 @@ fn jgroup(kind: &str, c: &GroupCase) -> Value {
     json!({"kind": kind, "case": serde_json::to_value(c).unwrap()})
 }
 
+/// smallest inputs for each avoidable known defect, evaluated first so that the replay file
+/// recorded for a finding is the minimal one
+fn minimal_canaries(check: &Check) {
+    let name = |s: &str| GroupInfoCase {
+        flags: 0,
+        bbox: BBox::zero(),
+        name: s.to_string(),
+    };
+    let mut roots: Vec<RootCase> = vec![];
+    let mut c = grid_root(V_MOP, 0); // two groups with different names
+    c.groups = vec![name("a"), name("b")];
+    roots.push(c);
+    let mut c = grid_root(0, 0); // two materials before MoP
+    c.materials = grid_root(0, 2).materials[..2].to_vec();
+    roots.push(c);
+    let mut c = grid_root(V_WOTLK, 0); // skybox at a version-17 expansion
+    c.skybox = Some("sky.mdx".into());
+    roots.push(c);
+    let mut c = grid_root(V_MOP, 0); // one doodad whose name offset is not 0
+    c.doodad_defs = grid_root(V_MOP, 1).doodad_defs;
+    c.doodad_defs[0].name_offset = 5;
+    c.doodad_fixpoint = false;
+    roots.push(c);
+    let mut c = grid_root(V_MOP, 0); // header bounds that are not the union of (no) groups
+    c.bounds = Some(BBox {
+        min: V3::f(-1.0, -1.0, -1.0),
+        max: V3::f(1.0, 1.0, 1.0),
+    });
+    roots.push(c);
+    for c in roots {
+        settle_grid(check, oracle::eval_root(&c), jroot("root", &c));
+        check.bump("minimal_canaries", 1);
+    }
+    let mut g = grid_group(V_MOP, 0); // one BSP node
+    g.bsp = Some(grid_group(V_MOP, 1).bsp.unwrap());
+    settle_grid(check, oracle::eval_group(&g), jgroup("group", &g));
+    let mut g = grid_group(V_MOP, 0); // 1×1 liquid followed by doodad references
+    g.liquid = grid_group(V_MOP, 1).liquid;
+    g.doodad_refs = Some(vec![7]);
+    settle_grid(check, oracle::eval_group(&g), jgroup("group", &g));
+    check.bump("minimal_canaries", 2);
+}
+
 fn grid(check: &Check) {
+    minimal_canaries(check);
     // every version × {empty, one, many} for roots and groups
     for v in 0..VERSIONS.len() as u8 {
         for n in 0..3 {
